@@ -213,14 +213,16 @@ def part_sem(args, out):
         second = syn.Lock()
         syn.SemLock._make_name = staticmethod(orig)
         third = syn.Semaphore(2)
-        res["r"] = [first.acquire(), second.acquire(), third.acquire()]
-        res["names"] = [taken, second._semlock.name, third._semlock.name]
+        # a legal explicit name containing the separator of the tracker protocol
+        odd = syn.SemLock(1, 1, 1, name=f"/loky-{os.getpid()}-odd:name:x")
+        res["r"] = [first.acquire(), second.acquire(), third.acquire(), odd.acquire()]
+        res["names"] = [taken, second._semlock.name, third._semlock.name, odd._semlock.name]
         if args.get("release", True) and how == "normal":
-            del first, second, third
+            del first, second, third, odd
             gc.collect()
             res["released"] = True
         else:
-            globals()["_keep"] = (first, second, third)
+            globals()["_keep"] = (first, second, third, odd)
             res["released"] = False
     elif hist == "primitives":
         ctx = get_context("loky")
